@@ -65,10 +65,13 @@ impl impl_details::CacheImplDetails for MemoryStore {
         if record.header.timestamp + (record.header.time_to_live as u64) > current_time {
             return false;
         }
-        match self.remove(key) {
-            Some(_) => true,
-            None => true,
-        }
+        // drop the record only if what is stored now is (still) expired: a record
+        // stored since this one was read must not be removed
+        self.memory.remove_if(key, |_key, stored| {
+            stored.header.time_to_live != 0
+                && stored.header.timestamp + (stored.header.time_to_live as u64) <= current_time
+        });
+        true
     }
 }
 
